@@ -466,7 +466,7 @@ def check(rep: Report, tier: str, seed: int) -> None:
                 rep.broke(f"correspondence ({l.split()[0]}): line={l[:300]} model={m[:160]} impl={e[:160]}")
     rep.extra["merge_mid_reps_disagreements"] = bad
     rep.extra["merge_mid_reps_cases"] = len(l1) + len(l2)
-    if rep.broken and not rep.failing:
+    if rep.broken and not rep.unknown_failing():
         search(rep, seed, 3000 if tier == "quick" else 60000)
 
 
